@@ -118,15 +118,19 @@ def check(ctx):
     ctx.ob("C19.S1", f"{gsf.short}/default-is-2", okd, loc(gsf), "initial_depth defaults to 2" if okd else "initial_depth default is not 2")
     # structural: only an unconditional range loop hops frames before the recursion; no module state written
     structural_ok = True
-    for n in gsf.own_nodes():
-        if isinstance(n, ast.While):
-            structural_ok = False
-            ctx.ob("C19.S1", f"{gsf.short}/unconditional-hops", False, loc(gsf, n),
-                   "frames are skipped conditionally (while-loop on frame attributes): which line is reported depends on file "
-                   "names/locations of the user's code", head(n))
-        if isinstance(n, ast.If) and any(isinstance(x, ast.Attribute) and x.attr == "f_back" for x in ast.walk(n)) and n in gsf.node.body:
-            structural_ok = False
-            ctx.ob("C19.S1", f"{gsf.short}/unconditional-hops", False, loc(gsf, n), "frame hops depend on a condition", head(n))
+    # which frames are skipped / kept may depend on how many there are (depth counters, `frame is None`), never on what a
+    # frame contains (file name, function name, globals): the hop count and the chain itself are then decided by the
+    # evaluation on stub frame chains below
+    CONTENT = {"f_code", "co_filename", "co_name", "f_globals", "f_locals", "f_lineno", "__name__", "__file__"}
+    for f_ in [gsf] + gsf.all_nested():
+        for n in f_.own_nodes():
+            if isinstance(n, (ast.While, ast.If, ast.IfExp)):
+                used = {x.attr for x in ast.walk(n.test) if isinstance(x, ast.Attribute)} | {x.id for x in ast.walk(n.test) if isinstance(x, ast.Name)}
+                if used & CONTENT:
+                    structural_ok = False
+                    ctx.ob("C19.S1", f"{gsf.short}/unconditional-hops", False, loc(f_, n),
+                           "frames are skipped conditionally (while-loop on frame attributes): which line is reported depends on file "
+                           "names/locations of the user's code", head(n) if not isinstance(n, ast.IfExp) else norm(n)[:80])
     state_writes = []
     for f in [gsf] + gsf.all_nested():
         if f.globals_:
